@@ -22,7 +22,7 @@ def gen_tables(d, rep, fmts, maxlen, maxloc, rich):
     for f in fmts:
         cfg = d / ("ltcfg-%s.json" % f)
         cfg.write_text(json.dumps({"fmts": [f], "maxlen": maxlen, "maxloc": maxloc, "rich": rich, "export": 1}))
-        jobs.append(lambda cfg=cfg, f=f: lib.tlc("LineTablesMC", workers=1, timeout=3000, heap="2g",
+        jobs.append(lambda cfg=cfg, f=f: lib.tlc("LineTablesMC", workers=1, coverage=True, timeout=3000, heap="2g",
                                                   env={"GEN_CFG": cfg}, tag="ltmc-" + f))
     beh = []
     seen = set()
